@@ -38,8 +38,8 @@ ASSUMPTIONS = [
 COMPONENTS = {"real": ["atomica data / excel / programs / framework / parameters / project / reconciliation / migration", "openpyxl, xlsxwriter, pandas", "sciris Spreadsheet, saveobj/loadobj"], "stub": ["time module seen by sciris.sc_asd (reconciliation only)", "np.random.default_rng(None) -> simulated entropy (reconciliation only)"]}
 
 _CORPUS = None
-PROJECTS = ["udt", "usdt", "tb_simple", "hiv", "hypertension", "udt_dyn", "tb_simple_dyn", "hiv_dyn", "hypertension_dyn", "diabetes", "cervicalcancer", "uncertainty", "timed_transfer", "timed_transfer_2", "timed_test", "timed_indirect", "timed_indirect2", "timed_eligibility", "par_min_max", "service", "dt", "tb"]
-HEAVY = {"tb"}
+PROJECTS = ["udt", "usdt", "tb_simple", "hiv", "hypertension", "udt_dyn", "tb_simple_dyn", "hiv_dyn", "hypertension_dyn", "diabetes", "cervicalcancer", "uncertainty", "timed_transfer", "timed_transfer_2", "timed_test", "timed_indirect", "timed_indirect2", "timed_eligibility", "par_min_max", "service", "dt", "tb", "legacy_scen", "legacy_nores"]
+HEAVY = {"tb", "legacy_scen", "legacy_nores"}
 
 
 def budget(tier):
@@ -155,8 +155,8 @@ def run(ch, idx, tier):
     from atomsim import corpus as _c
 
     names = [n for n in PROJECTS if n in _CORPUS and n not in HEAVY] + _c.generated_names()
-    if ch.flip("heavy", 0.02) and "tb" in _CORPUS:
-        names = ["tb"]
+    if ch.flip("heavy", 0.03) and "tb" in _CORPUS:
+        names = [n for n in ("tb", "legacy_scen", "legacy_nores") if n in _CORPUS]
     name = ch.pick("project", names)
     entry = _CORPUS[name]
     P = entry.project()
@@ -202,6 +202,9 @@ def run(ch, idx, tier):
     # history of editing operations
     # ---------------------------------------------------------------------------------------
     nops = ch.choose("history_length", 5)
+    legacy = name.startswith("legacy")
+    if legacy:
+        nops = 0  # files written by old versions: only the binary persistence half of the property applies (their data predates today's books)
     OPS = ["none", "parset_copy", "add_pop", "remove_pop", "rename_pop", "add_transfer", "remove_transfer", "data_edit", "sample_zero", "load_calibration", "edit_yfactor", "connection_edit"]
     if progset is not None:
         OPS += ["add_program", "remove_program", "remove_par", "remove_comp", "progset_edit", "progset_copy", "reconcile", "progset_sample_zero", "remove_program", "reconcile"]
@@ -370,7 +373,7 @@ def run(ch, idx, tier):
                     covs = [co for co in progset.covouts.values() if co.pop in prog.target_pops]
                     if covs and ch.flip("add_program.effect", 0.7):
                         co = covs[ch.choose("add_program.covout", len(covs))]
-                        co.progs[code] = co.baseline * ch.uniform("add_program.outcome", 0.5, 1.5) + 0.01
+                        co.progs[code] = 0.0 if ch.flip("add_program.zero_outcome", 0.3) else co.baseline * ch.uniform("add_program.outcome", 0.5, 1.5) + 0.01
                         co.update_outcomes()  # documented protocol after editing outcomes directly
                     op = f"add_program({code!r})"
                 elif op == "remove_program":
@@ -483,6 +486,8 @@ def run(ch, idx, tier):
         base = simulate(parset, progset, "in-memory")
 
         # -- databook ---------------------------------------------------------------------
+        if legacy:
+            raise _LegacyOnlyBinary()
         try:
             ss1 = data.to_spreadsheet()
             data1 = at.ProjectData.from_spreadsheet(ss1, fw)
@@ -572,8 +577,15 @@ def run(ch, idx, tier):
         # -- calibration (y-factor table), lossless and lossy ----------------------------------
         _calibration_trips(ch, at, sc, fw, data, parset, violate, bump, history)
 
+        raise _LegacyOnlyBinary()
+    except _LegacyOnlyBinary:
+        pass
+    except BaseException:
+        shutil.rmtree(scratch, ignore_errors=True)
+        raise
+    try:
         # -- binary files -------------------------------------------------------------------
-        if ch.flip("binary_trip", 0.5):
+        if ch.flip("binary_trip", 0.5) or legacy:
             P.parsets["state"] = parset
             if progset is not None:
                 P.progsets["state"] = progset
@@ -617,6 +629,10 @@ def run(ch, idx, tier):
         "oplog": history,
         "trace": trace,
     }
+
+
+class _LegacyOnlyBinary(Exception):
+    pass
 
 
 def _where(e):
